@@ -139,6 +139,13 @@ impl DiskReadScheduler {
                         Some(columns) => columns,
                         None => {
                             handle.set_empty();
+                            // Release the partition again, otherwise every later load of one of its columns spins forever.
+                            self.load_scheduled
+                                .read()
+                                .unwrap()
+                                .get(&partition_handle)
+                                .unwrap()
+                                .store(false, Ordering::SeqCst);
                             return None;
                         }
                     }
